@@ -468,6 +468,10 @@ impl Display for Operand<'_> {
             | Expr::Neg(_)
             | Expr::Value(Value::Float(_))
             | Expr::Value(Value::Decimal(_)) => write!(formatter, "({})", self.0),
+            // `f.5` and `d.5` are float and decimal literals, not an index into `f` or `d`
+            Expr::Reference(name) | Expr::Symbol(name) if name == "f" || name == "d" => {
+                write!(formatter, "({})", self.0)
+            }
             expr => write!(formatter, "{expr}"),
         }
     }
